@@ -3,6 +3,7 @@ package props
 import (
 	"fmt"
 	"go/constant"
+	"go/types"
 	"strings"
 
 	"gcacheck/internal/an"
@@ -24,6 +25,47 @@ func init() {
 	})
 }
 
+// The fields of RateLimiter by role (the rules speak of the request list, the limit and the window length, whatever the
+// fields are called): the only field of type []time.Time, the only int field and the only time.Duration field; the
+// names of the pinned source when the types do not single them out.
+var rlReqs, rlLimit, rlRate = "reqs", "limit", "rate"
+
+func rateLimiterRoles(allow *ssa.Function) {
+	rlReqs, rlLimit, rlRate = "reqs", "limit", "rate"
+	if allow.Signature.Recv() == nil {
+		return
+	}
+	t := allow.Signature.Recv().Type()
+	if pt, ok := t.Underlying().(*types.Pointer); ok {
+		t = pt.Elem()
+	}
+	st, ok := t.Underlying().(*types.Struct)
+	if !ok {
+		return
+	}
+	var lists, ints, durs []string
+	for i := 0; i < st.NumFields(); i++ {
+		f := st.Field(i)
+		switch ft := f.Type().(type) {
+		case *types.Slice:
+			if ft.Elem().String() == "time.Time" {
+				lists = append(lists, f.Name())
+			}
+		case *types.Basic:
+			if ft.Kind() == types.Int {
+				ints = append(ints, f.Name())
+			}
+		case *types.Named:
+			if ft.String() == "time.Duration" {
+				durs = append(durs, f.Name())
+			}
+		}
+	}
+	if len(lists) == 1 && len(ints) == 1 && len(durs) == 1 {
+		rlReqs, rlLimit, rlRate = lists[0], ints[0], durs[0]
+	}
+}
+
 func runC19(c *an.Ctx) {
 	p := c.P
 	allow := p.Method("glow", "RateLimiter", "Allow")
@@ -31,6 +73,7 @@ func runC19(c *an.Ctx) {
 		c.Undecided("ANCHOR", nil, 0, "RateLimiter.Allow", "method Allow of glow.RateLimiter not found", "anchor missing")
 		return
 	}
+	rateLimiterRoles(allow)
 	scope := []*ssa.Function{}
 	for _, fn := range p.FuncsIn("glow") {
 		if strings.Contains(an.FuncName(fn), "RateLimiter") {
@@ -100,7 +143,7 @@ func runC19(c *an.Ctx) {
 		for _, in := range b.Instrs {
 			switch x := in.(type) {
 			case *ssa.Store:
-				if f, ok := fi.RefClass(x.Addr).FieldOf("RateLimiter"); ok && f == "reqs" {
+				if f, ok := fi.RefClass(x.Addr).FieldOf("RateLimiter"); ok && f == rlReqs {
 					isRec := false
 					for _, r := range records {
 						if r == x {
@@ -196,13 +239,13 @@ func runC19(c *an.Ctx) {
 	staleTest := false
 	isLimitTest := func(t *an.Term) bool {
 		if t.K == an.KBin && t.S == "<" && t.A[0].K == an.KLen {
-			if f2, _, ok := mapFieldOfTerm(t.A[1]); !ok || f2 != "limit" {
+			if f2, _, ok := mapFieldOfTerm(t.A[1]); !ok || f2 != rlLimit {
 				return false
 			}
 			if keptVals[t.A[0].A[0].Key()] {
 				return true
 			}
-			if fld, _, ok := mapFieldOfTerm(t.A[0].A[0]); ok && fld == "reqs" {
+			if fld, _, ok := mapFieldOfTerm(t.A[0].A[0]); ok && fld == rlReqs {
 				if !postExpiry(t.A[0].A[0]) {
 					staleTest = true
 					return false
@@ -222,11 +265,11 @@ func runC19(c *an.Ctx) {
 				return true, short(t.Key())
 			}
 			if !admit && t.S == "<=" && t.A[1].K == an.KLen {
-				if f2, _, ok := mapFieldOfTerm(t.A[0]); ok && f2 == "limit" && keptVals[t.A[1].A[0].Key()] {
+				if f2, _, ok := mapFieldOfTerm(t.A[0]); ok && f2 == rlLimit && keptVals[t.A[1].A[0].Key()] {
 					return true, short(t.Key())
 				}
-				if fld, _, ok := mapFieldOfTerm(t.A[1].A[0]); ok && fld == "reqs" {
-					if f2, _, ok := mapFieldOfTerm(t.A[0]); ok && f2 == "limit" {
+				if fld, _, ok := mapFieldOfTerm(t.A[1].A[0]); ok && fld == rlReqs {
+					if f2, _, ok := mapFieldOfTerm(t.A[0]); ok && f2 == rlLimit {
 						return true, short(t.Key())
 					}
 				}
@@ -247,7 +290,7 @@ func runC19(c *an.Ctx) {
 		call := st.Val.(*ssa.Call)
 		bt := fi.Term(call.Call.Args[0])
 		okBase := keptVals[bt.Key()]
-		if fld, _, ok := mapFieldOfTerm(bt); ok && fld == "reqs" && postExpiry(bt) {
+		if fld, _, ok := mapFieldOfTerm(bt); ok && fld == rlReqs && postExpiry(bt) {
 			okBase = true
 		}
 		c.Check(okBase, "PRED", allow, st.Pos(), an.KeyOf(allow, "record-base"), "the admitted call's timestamp is appended to the list as the expiry step left it", "append base "+short(bt.Key()))
@@ -365,12 +408,12 @@ func runC19(c *an.Ctx) {
 				recv := efi.Term(sv)
 				arg := efi.Term(cv)
 				okShape := name == "(time.Time).After" || name == "(time.Time).Before"
-				recvOK := recvOrigin(efi, sv) == "reqs"
+				recvOK := recvOrigin(efi, sv) == rlReqs
 				argOK := false
 				if (arg.K == an.KCall || arg.K == an.KPure) && arg.Callee() == "(time.Time).Add" && len(arg.A) == 2 && arg.A[0].Key() == ef.nowK {
 					d := arg.A[1]
 					if d.K == an.KUn && d.S == "-" {
-						if f, _, ok := mapFieldOfTerm(d.A[0]); ok && f == "rate" {
+						if f, _, ok := mapFieldOfTerm(d.A[0]); ok && f == rlRate {
 							argOK = true
 						}
 					}
@@ -392,7 +435,7 @@ func runC19(c *an.Ctx) {
 					continue
 				}
 				cls := efi.RefClass(st.Addr)
-				if f, ok := cls.FieldOf("RateLimiter"); !ok || f != "reqs" {
+				if f, ok := cls.FieldOf("RateLimiter"); !ok || f != rlReqs {
 					continue
 				}
 				isRecord := false
@@ -422,10 +465,14 @@ func runC19(c *an.Ctx) {
 			}
 		}
 	}
-	if nCmp != 1 {
+	if nCmp == 1 {
+		c.Proved("FORM", allow, allow.Pos(), an.KeyOf(allow, "retain-count"), "the expiry step decides retention by exactly one comparison of a stored timestamp with now-rate", "1 comparison")
+	} else {
 		c.Violated("FORM", allow, allow.Pos(), an.KeyOf(allow, "retain-count"), "the expiry step must decide retention by exactly one comparison of a stored timestamp with now-rate; found "+fmt.Sprint(nCmp), "the sliding-window rules are established for this form only")
 	}
-	if !(haveEmpty && haveSuffix && nSl >= 1 && nSl <= 2) {
+	if haveEmpty && haveSuffix && nSl >= 1 && nSl <= 2 {
+		c.Proved("FORM", allow, allow.Pos(), an.KeyOf(allow, "kept-count"), "the expiry step stores the suffix that starts at the first unexpired timestamp or, when none is unexpired, the empty list", fmt.Sprint(nSl)+" reslicing store(s)")
+	} else {
 		c.Violated("FORM", allow, allow.Pos(), an.KeyOf(allow, "kept-count"), "the expiry step must store either the suffix that starts at the first unexpired timestamp (reqs[idx:]) or, when none is unexpired, the empty list (reqs[:0]); found "+fmt.Sprint(nSl)+" reslicing store(s): some path keeps expired entries or drops unexpired ones", "the sliding-window rules are established for this form only")
 	}
 	// "never admits more than the limit" at the endpoint the limiter guards: a refused request gets no archive (rule owned by C14)
@@ -449,7 +496,7 @@ func popFrontLoops(p *an.Program, fn *ssa.Function) []*natLoop {
 			if !ok {
 				continue
 			}
-			if f, ok := fi.RefClass(st.Addr).FieldOf("RateLimiter"); !ok || f != "reqs" {
+			if f, ok := fi.RefClass(st.Addr).FieldOf("RateLimiter"); !ok || f != rlReqs {
 				continue
 			}
 			if sl, ok := st.Val.(*ssa.Slice); ok && sl.High == nil {
@@ -534,7 +581,7 @@ func popFrontStore(c *an.Ctx, p *an.Program, fn *ssa.Function, st *ssa.Store, re
 			for _, f := range fs {
 				f.T.Walk(func(t *an.Term) {
 					if t.K == an.KLen {
-						if fld, _, isF := mapFieldOfTerm(t.A[0]); isF && fld == "reqs" && sys.ProveLE(t, 0) {
+						if fld, _, isF := mapFieldOfTerm(t.A[0]); isF && fld == rlReqs && sys.ProveLE(t, 0) {
 							empty = true
 						}
 					}
@@ -552,7 +599,7 @@ func popFrontStore(c *an.Ctx, p *an.Program, fn *ssa.Function, st *ssa.Store, re
 		}
 		for _, in := range b.Instrs {
 			if o, isSt := in.(*ssa.Store); isSt && o != st {
-				if f, isF := fi.RefClass(o.Addr).FieldOf("RateLimiter"); isF && f == "reqs" && why == "" {
+				if f, isF := fi.RefClass(o.Addr).FieldOf("RateLimiter"); isF && f == rlReqs && why == "" {
 					why = "another store writes the list inside the expiry loop"
 				}
 			}
@@ -881,7 +928,7 @@ func recordStores(fi *an.FuncInfo, allow *ssa.Function, nowK string) []*ssa.Stor
 				continue
 			}
 			cls := fi.RefClass(st.Addr)
-			if f, ok := cls.FieldOf("RateLimiter"); !ok || f != "reqs" {
+			if f, ok := cls.FieldOf("RateLimiter"); !ok || f != rlReqs {
 				continue
 			}
 			call, ok := st.Val.(*ssa.Call)
